@@ -155,6 +155,7 @@ pub fn check(cfg: &Cfg) -> Result<i32, Harness> {
     let mut interleavings: BTreeSet<u64> = BTreeSet::new();
     let mut samples = Vec::new();
     let mut schedules = 0u64;
+    let mut table_programs = 0usize;
     let per_proc = cfg.n(120, 6000);
     // the set of runs must not depend on the number of workers
     let procs = 16usize;
@@ -183,6 +184,7 @@ pub fn check(cfg: &Cfg) -> Result<i32, Harness> {
         };
         tally.add(format!("static_facts_hold:{flavour}"));
         let table = oracle(cfg, &exe)?;
+        table_programs = table["programs"].as_array().map_or(0, |a| a.len());
         let table_path = scratch.join(format!("table-{flavour}.json"));
         std::fs::write(&table_path, serde_json::to_string(&table)?)?;
         tally.add_n("oracle_processes", table["table"].as_array().map_or(0, |t| t.iter().map(|r| r.as_array().map_or(0, |r| r.len())).sum::<usize>()) as u64);
@@ -257,7 +259,8 @@ pub fn check(cfg: &Cfg) -> Result<i32, Harness> {
         coverage: json!({
             "evaluations": (schedules + miri_runs).max(1),
             "distinct_nontrivial": interleavings.len().min(tally.get("nontrivial_interleavings") as usize),
-            "rule": "S0: the simthreads crate, which asserts `Filter<DataKind>: Send + Sync`, `Filter<JustLut<Val>>: Send + Sync`, `Lut: Send + Sync` and (feature jaq-json/sync) `Val: Send + Sync`, is compiled against the working tree in both flavours. S1: for 60 terminating programs (regex with different flags, formats, dates, closures, labels, folds, updates, paths, codecs) x 8 inputs the output streams are computed in a fresh process per program that does nothing else (isolated oracle); then shuttle runs seeded random and PCT(depth 3) schedules of 2-4 threads sharing one compiled filter per program, each thread pulling one output per scheduling step, one thread in ten also compiling and running another program in between, and - in the sync flavour - half of the threads working on one value shared between them; every stream must equal the isolated one, recompilation must succeed iff it does in isolation, and the shared value must be unchanged. An interleaving is the sequence of thread ids in pull order; distinct = distinct interleavings (hash) among non-trivial ones; non-trivial = at least T context switches (not a concatenation of complete runs).",
+            "programs": table_programs,
+            "rule": "S0: the simthreads crate, which asserts `Filter<DataKind>: Send + Sync`, `Filter<JustLut<Val>>: Send + Sync`, `Lut: Send + Sync` and (feature jaq-json/sync) `Val: Send + Sync`, is compiled against the working tree in both flavours. S1: for 64 hand-written terminating programs (regex with different flags, formats, dates, closures, lazily created nested labels, folds, updates, paths, codecs) plus one or two calls of every filter the tree defines (natives and jq-coded definitions discovered at run time; clock, environment, input stream and halting filters excluded) x 9 inputs the output streams are computed in a fresh process per program that does nothing else (isolated oracle); then shuttle runs seeded random and PCT(depth 3) schedules of 2-4 threads sharing one compiled filter per program, each thread pulling one output per scheduling step, one thread in ten also compiling and running another program in between, and - in the sync flavour - half of the threads working on one value shared between them; every stream must equal the isolated one, recompilation must succeed iff it does in isolation, and the shared value must be unchanged. An interleaving is the sequence of thread ids in pull order; distinct = distinct interleavings (hash) among non-trivial ones; non-trivial = at least T context switches (not a concatenation of complete runs).",
             "schedules": pick("schedules:"),
             "static_facts": pick("static_facts_hold:"),
             "threads_run": tally.get("threads"),
